@@ -405,7 +405,8 @@ impl G<'_> {
     fn modifiers(&mut self) -> String {
         let mut s = String::new();
         while self.r.chance(1, 4) {
-            s.push_str(self.r.pick(&["DAGGER ", "CONTROLLED ", "FORKED "]));
+            let m: &str = *self.r.pick(&["DAGGER ", "CONTROLLED ", "FORKED "]);
+            s.push_str(m);
         }
         s
     }
